@@ -112,9 +112,28 @@ func (s *stubTransport) RoundTrip(req *http.Request) (*http.Response, error) {
 	if st == 0 {
 		st = 200
 	}
+	body := r.Bodies[k]
+	// a Range request is honoured as a server does: 206 with exactly those bytes, 416 past the end
+	if rg := req.Header.Get("Range"); strings.HasPrefix(rg, "bytes=") && st == 200 {
+		var a, b uint64
+		if n, _ := fmt.Sscanf(rg[len("bytes="):], "%d-%d", &a, &b); n == 2 {
+			if a >= uint64(len(body)) || b < a {
+				return &http.Response{
+					StatusCode: http.StatusRequestedRangeNotSatisfiable, Status: "416", Proto: "HTTP/1.1", ProtoMajor: 1, ProtoMinor: 1,
+					Header: http.Header{}, Body: io.NopCloser(bytes.NewReader(nil)), Request: req,
+				}, nil
+			}
+			end := b + 1
+			if end > uint64(len(body)) || end == 0 {
+				end = uint64(len(body))
+			}
+			body = body[a:end]
+			st = http.StatusPartialContent
+		}
+	}
 	return &http.Response{
 		StatusCode: st, Status: fmt.Sprintf("%d", st), Proto: "HTTP/1.1", ProtoMajor: 1, ProtoMinor: 1,
-		Header: http.Header{}, Body: io.NopCloser(bytes.NewReader(r.Bodies[k])), ContentLength: int64(len(r.Bodies[k])),
+		Header: http.Header{}, Body: io.NopCloser(bytes.NewReader(body)), ContentLength: int64(len(body)),
 		Request: req,
 	}, nil
 }
